@@ -216,6 +216,14 @@ def _project_field(t, name, owner=""):
         inner = inner[3]
     if inner[0] == "tuple" and name.isdigit() and int(name) < len(inner[1]):
         return inner[1][int(name)]
+    # a captured variable read back from a closure literal of this very body (a closure spliced in by the inliner): its value
+    hops = 0
+    env = inner
+    while hops < 6 and env[0] in ("ref", "deref", "var"):
+        env = env[3] if env[0] == "var" else env[1]
+        hops += 1
+    if env[0] == "closure" and name.isdigit() and int(name) < len(env[2]):
+        return env[2][int(name)]
     if inner[0] == "agg" and len(inner) > 4 and name in inner[4]:
         i = inner[4].index(name)
         if i < len(inner[3]):
